@@ -497,6 +497,8 @@ class Point:
                 stack.pop(); continue
             if x.op == 'fn' and x.val in ('exp', 'sin', 'cos', 'tan', 'cexp'):
                 pending = []      # argument handled through its polynomial, not its value
+            elif x.op == 'cmp' and x.val in ('<', '<=', '>', '>='):
+                pending = []      # an order comparison is decided on the real valuation; its operands need no value in the field (|z| of a complex z has one at every other point only)
             else:
                 pending = [a for a in x.args if a.uid not in memo]
             if pending:
@@ -558,7 +560,7 @@ class Point:
             except (AnalysisError, OverflowError, ValueError, ZeroDivisionError, RecursionError):
                 pass
         # fallback: the Legendre character as the sign of (a - b)
-        a = memo_get(self, x.args[0]); b = memo_get(self, x.args[1])
+        a = self.ev(x.args[0]); b = self.ev(x.args[1])
         if x.val in ('==', '!='):
             same_ = (a[0] - b[0]) % P == 0 and (a[1] - b[1]) % P == 0          # equality is defined for complex values too
             return (int(same_ if x.val == '==' else not same_), 0)
@@ -850,6 +852,17 @@ class Decider:
         """True / False; raises AnalysisError when no point could evaluate e."""
         e = lift(e)
         vals = [v for v in self.values(e) if v is not None]
+        if not vals:
+            # every standing point hit a pole or a non-residue under a root (each root halves the chance of a point): draw further points before giving up
+            tries = 0
+            while len(vals) < max(2, min(len(self.points), 3)) and tries < 400:
+                tries += 1
+                pt = self.extra_point()
+                if pt is None: continue
+                try:
+                    vals.append(pt.ev(e))
+                except Resample:
+                    continue
         if not vals:
             raise AnalysisError('expression has a pole at every sample point: ' + show(e)[:200])
         if not all(v == (0, 0) for v in vals):
